@@ -6,7 +6,7 @@
 W=${1:-6}
 sd=${VERIF_SEED:-0}
 out=/verif/docs/seed_regression.txt; [ "$sd" != "0" ] && out=/verif/docs/seed_regression_seed$sd.txt
-tmp=/tmp/seedreg; rm -rf $tmp; mkdir -p $tmp
+tmp=/tmp/seedreg${VERIF_SEED:-0}; rm -rf $tmp; mkdir -p $tmp
 head=$(git -C /repo rev-parse --short HEAD)
 ls -d /verif/seeded/*/ | xargs -n1 basename > $tmp/all.txt
 for i in $(seq 1 $W); do
